@@ -409,6 +409,31 @@ def check(ctx: Ctx, col: Collector, tier: str) -> None:
                                          *([] if ident_tests else ["every *.py file below the source root is analysed and its name becomes a segment of the package line; only keywords are treated: "
                                                                    "`pkg/run-tests.py` gives `package pkg.run-tests`, `pkg/2to3.py` gives `package pkg.2to3` (no Safe-DS identifiers, with or without back-quotes)"]))
 
+    # a type variable is listed (`fun f<T sub ...>`) and referenced under the name the analyser records for it.  mypy names a bound type variable
+    # after the annotation as written (FindTypeVarVisitor.visit_unbound_type: `name = t.name`), which is dotted when the variable is reached through a
+    # module (`typing.AnyStr`, `t.AnyStr`, `tv.T`): the recorded name has to be its last segment
+    from ..core.libmodel import lib_function
+    fv = lib_function("mypy/typeanal.py", "FindTypeVarVisitor.visit_unbound_type")
+    as_written = any(isinstance(n, ast.Assign) and ast.unparse(n.targets[0]) == "name" and ast.unparse(n.value) == "t.name" for n in ast.walk(fv)) and any(
+        isinstance(n, ast.Call) and ast.unparse(n.func).endswith("type_var_likes.append") and "name" in ast.unparse(n.args[0]) for n in ast.walk(fv))
+    if not as_written:
+        raise AnalysisError("library model: mypy's FindTypeVarVisitor.visit_unbound_type no longer records type variables under the annotation's name as written; re-triage the type-variable name rule")
+    vfi2 = repo.function(VISITOR, "MyPyAstVisitor.mypy_type_to_abstract_type")
+    ctors = [n for n in ast.walk(vfi2.node) if isinstance(n, ast.Call) and ast.unparse(n.func).endswith("TypeVarType") and any(k.arg == "name" for k in n.keywords)]
+    if not ctors:
+        raise AnalysisError("no TypeVarType(name=...) construction in mypy_type_to_abstract_type")
+    for n in ctors:
+        nm = next(k.value for k in n.keywords if k.arg == "name")
+        src = ast.unparse(nm)
+        # follow one local assignment
+        if isinstance(nm, ast.Name):
+            defs = [a for a in ast.walk(vfi2.node) if isinstance(a, ast.Assign) and any(isinstance(t, ast.Name) and t.id == nm.id for t in a.targets)]
+            src = " | ".join(ast.unparse(a.value) for a in defs) or src
+        last_segment = any(t in src for t in (".split('.')[-1]", '.split(".")[-1]', ".rpartition('.')[2]", '.rpartition(".")[2]', ".rsplit('.', 1)[-1]", '.rsplit(".", 1)[-1]', ".rpartition('.')[-1]", '.rpartition(".")[-1]'))
+        (col.ok if last_segment else col.bad)("C02.NAME-PIPELINE", f"{VISITOR}::MyPyAstVisitor.mypy_type_to_abstract_type::type-variable-name", repo.loc(VISITOR, n), f"name = {src[:80]}",
+                                              *([] if last_segment else ["a type variable that is referenced through its module (`def f(a: typing.AnyStr) -> typing.AnyStr`, `import typevars as tv; x: tv.T`) is recorded "
+                                                                         "under mypy's dotted name: the stub says `fun f<typing.AnyStr sub ...>(a: typing.AnyStr)`, which is no identifier"]))
+
     # ------------------------------------------------------------------ TODO-LINES
     fl = [t for t in em.templates if em.name_of(t.fi) == "_create_todo_msg" and not (isinstance(t.value, Const) and t.value.v == "")]
     good = bool(fl) and all(render(t.value).endswith("\n") for t in fl)
